@@ -8,6 +8,7 @@ From DC Require Grid.Model.
 From DC Require Adjustable.Model.
 From DC Require Graph.UltraGraph Graph.Spec Graph.ShortestPath.
 From DC Require Context.Model Context.Spec.
+From DC Require Collections.Model.
 
 Extraction Language OCaml.
 
@@ -20,4 +21,5 @@ Extraction "model.ml"
   Grid.Model.grid_model_entry Grid.Model.grid_spec_entry
   Adjustable.Model.adjustable_model_entry Adjustable.Model.adjustable_check_entry
   Graph.UltraGraph.ugraph_model_entry Graph.Spec.ugraph_check_entry Graph.ShortestPath.spath_check_entry
-  Context.Model.context_model_entry Context.Spec.context_check_entry.
+  Context.Model.context_model_entry Context.Spec.context_check_entry
+  Collections.Model.collections_model_entry Collections.Model.collections_check_entry.
